@@ -2,8 +2,8 @@ SPECIFICATION Spec
 CONSTANTS
   Handles = {1, 2}
   Cursors = {1}
-  Keys = {1, 2, 3}
-  Vals = {1, 2}
+  Keys = {1, 2}
+  Vals = {1}
   Ts = {2, 3}
 INVARIANT TypeOK
 INVARIANT CursorLaws
